@@ -312,12 +312,7 @@ impl Ctx {
         }
         let dir = verif_dir().join("replays").join(&self.prop);
         let _ = std::fs::create_dir_all(&dir);
-        let name = format!(
-            "{}-{}-{:016x}.json",
-            BUILD,
-            sub.replace(|c: char| !c.is_ascii_alphanumeric(), "_"),
-            digest_of(&f.signature)
-        );
+        let name = format!("{}-{:016x}.json", BUILD, digest_of(&f.signature));
         let path = dir.join(name);
         let j = json!({
             "property": self.prop,
@@ -503,5 +498,54 @@ impl Ctx {
             });
         self.stats.merge(st);
         self.flush_failures();
+    }
+}
+
+impl Ctx {
+    /// A worker context for one parallel task: same configuration and known
+    /// findings, empty counters. Merge back with [`Ctx::absorb`] in a fixed
+    /// order so that the run stays a pure function of (tree, tier, seed).
+    pub fn fork(&self) -> Ctx {
+        Ctx {
+            prop: self.prop.clone(),
+            tier: self.tier,
+            seed: self.seed,
+            strict: self.strict,
+            known: self.known.clone(),
+            stats: Stats::default(),
+            samples: Vec::new(),
+            exhaustive: Vec::new(),
+            excluded: BTreeMap::new(),
+            notes: Vec::new(),
+            required_classes: Vec::new(),
+            inconclusive: Vec::new(),
+            violation_sigs: self.violation_sigs.clone(),
+            violations: Vec::new(),
+            sample_budget: BTreeMap::new(),
+        }
+    }
+
+    pub fn absorb(&mut self, mut child: Ctx) {
+        child.flush_failures();
+        self.stats.merge(std::mem::take(&mut child.stats));
+        for s in child.samples {
+            if self.samples.len() < 40 {
+                self.samples.push(s);
+            }
+        }
+        for (k, v) in child.excluded {
+            *self.excluded.entry(k).or_insert(0) += v;
+        }
+        self.inconclusive.extend(child.inconclusive);
+        for (sub, f, path) in child.violations {
+            if self.violation_sigs.insert(f.signature.clone()) {
+                self.violations.push((sub, f, path));
+            }
+        }
+        for n in child.notes {
+            if !self.notes.contains(&n) {
+                self.notes.push(n);
+            }
+        }
     }
 }
